@@ -119,6 +119,9 @@ pub struct SimCtx {
     /// set by the watchdog when it gives up on this process: the runaway thread is parked at
     /// its next sandbox call instead of consuming memory and CPU for the rest of the run
     pub abandoned: Arc<std::sync::atomic::AtomicBool>,
+    /// file timestamps come from a simulated clock that stands still: every file of the
+    /// sandbox shows the same modification time, whenever it was written
+    pub frozen_clock: bool,
     in_shim: bool,
 }
 
@@ -137,6 +140,7 @@ impl SimCtx {
             fds: Vec::new(),
             dirs: Vec::new(),
             abandoned: Arc::new(std::sync::atomic::AtomicBool::new(false)),
+            frozen_clock: false,
             log: Vec::new(),
             fired: Vec::new(),
             gate: None,
@@ -758,8 +762,12 @@ pub unsafe extern "C" fn statx(
     };
     let bytes = unsafe { cstr_bytes(path) };
     if !in_sandbox(c, bytes) {
-        // fstat-like statx(fd, "", AT_EMPTY_PATH) on sandbox fds is passed through untouched
-        return unsafe { libc::syscall(libc::SYS_statx, dirfd, path, flags, mask, buf) as c_int };
+        // fstat-like statx(fd, "", AT_EMPTY_PATH) on sandbox fds: only the clock is simulated
+        let r = unsafe { libc::syscall(libc::SYS_statx, dirfd, path, flags, mask, buf) as c_int };
+        if r == 0 && c.frozen_clock && bytes.is_empty() && fd_index(c, dirfd).is_some() {
+            unsafe { freeze_times(buf) };
+        }
+        return r;
     }
     SEEN_STAT.fetch_add(1, Ordering::Relaxed);
     let np = norm(c, bytes);
@@ -792,8 +800,21 @@ pub unsafe extern "C" fn statx(
         Pre::Go(_) => {
             let r = unsafe { libc::syscall(libc::SYS_statx, dirfd, path, flags, mask, buf) as c_int };
             let res = if r < 0 { -(get_errno() as i64) } else { 0 };
+            if r == 0 && c.frozen_clock {
+                unsafe { freeze_times(buf) };
+            }
             log(c, Call::Stat, np, 0, res, None);
             r
+        }
+    }
+}
+
+/// The simulated clock stands still at one instant.
+unsafe fn freeze_times(buf: *mut libc::statx) {
+    unsafe {
+        for t in [&mut (*buf).stx_atime, &mut (*buf).stx_btime, &mut (*buf).stx_ctime, &mut (*buf).stx_mtime] {
+            t.tv_sec = 1_700_000_000;
+            t.tv_nsec = 0;
         }
     }
 }
